@@ -74,6 +74,8 @@ MUTANTS = [
     ("check-clause-no-raise", SER, "            raise ContractFormatError(f'Keyword \"{kw}\" not found in {clause_id}')", "            ContractFormatError(f'Keyword \"{kw}\" not found in {clause_id}')", ["C14"], []),
     ("file-asserts", FIO, '            raise ContractFormatError(f"Each entry of the file {file_name} should be a dictionary")', "            assert False", ["C14"], []),
     ("division-by-zero-escapes", GRAM, "        elif operand == 0:\n            raise pp.ParseFatalException(string, location, \"Division by zero in a constant expression\")\n", "", ["C14", "C09"], []),
+    ("optimize-no-presolve-retry", POLY, '        if res["status"] == 2:\n            # the solver\'s presolve reports', '        if False:\n            # the solver\'s presolve reports', ["C12"], []),
+    ("optimize-empty-termlist", POLY, "            return None if obj.vars else 0\n", "            pass\n", ["C12"], []),
     ("compose-wrong-context", IOC, "other.a | other.g, assumptions_forbidden_vars, simplify=True, tactics_order=tactics_order", "other.a, assumptions_forbidden_vars, simplify=True, tactics_order=tactics_order", [], []),
     ("tactic2-polarity", POLY, "polarity = 1\n        if refine:\n            polarity = -1\n        objective = [polarity * term.get_coefficient(var) for var in variables]", "polarity = -1\n        if refine:\n            polarity = 1\n        objective = [polarity * term.get_coefficient(var) for var in variables]", ["C04"], []),
     ("reduce-drops-near-redundant", POLY, '(res["status"] == 0 and -res["fun"] <= b_temp[i])', '(res["status"] == 0 and -res["fun"] <= b_temp[i] + 0.5)', ["C07"], []),
